@@ -1,6 +1,7 @@
--- root of the `XrlC13` library (property C13)
+-- root of the `XrlC13` library (property C13): model, specification, lemmas, theorems
 import XrlC13.Core.Basic
 import XrlC13.Core.Proto
 import XrlC13.Hand.CrystalNum
 import XrlC13.Spec.Basic
 import XrlC13.Spec.Crystal
+import XrlC13.Props.C13
